@@ -66,7 +66,8 @@ class Gfa(Lines,GraphOperations,RGFA):
       self._version_explanation = "set during initialization"
       self._version_guess = version
       self._validate_version()
-    self._dialect = dialect.lower()
+    # (None is accepted above and stands for the standard dialect)
+    self._dialect = dialect.lower() if dialect is not None else "standard"
     if len(args) == 1:
       lst = None
       if isinstance(args[0], str):
